@@ -59,7 +59,7 @@ def at_rules(ctx, I):
         sends = [e[2][0] if e[2] else None for e in s.trace if e[0] == 'ext' and e[1].endswith('sendCommand')]
         other = [e for e in s.trace if (e[0] == 'ext' and not e[1].endswith('sendCommand') and
                                         not e[1].endswith('isStreaming') and '.match' not in e[1])
-                 or e[0].startswith('seq-') and not str(e[1]).startswith('list@')]
+                 or e[0].startswith('seq-') and ('fresh', str(e[1])) not in s.flags and '@' not in str(e[1])]
         tag = 'streaming=%s action=%s enabled=%s excluding=%s' % (streaming, action if acted else 'no-match',
                                                                   f.pre_enabled, f.pre_excluding)
         if isinstance(v, Raised):
@@ -95,7 +95,7 @@ def at_rules(ctx, I):
                 if f.post_excluding() is not False:
                     ctx.report('C14.R2', where, 'disable leaves the episode open', tag)
                 # the list built by exitExcludedRegion
-                lists = [e[1] for e in s.trace if e[0] == 'seq-append' and isinstance(e[2], Cat) and e[2].skeleton() == 'G92 E{}']
+                lists = [oid for oid, sq in s.seqs.items() if any(isinstance(x, Cat) and x.skeleton() == 'G92 E{}' for x in sq)]
                 if not lists:
                     ctx.report('C14.R2', where, 'disable without exit sequence', 'an open episode is closed without '
                                're-synchronisation commands: ' + tag)
